@@ -51,9 +51,60 @@ pub struct Prepared {
     pub gen_classes: Vec<&'static str>,
 }
 
+/// the naming environment a generated type is placed in (C19)
+#[derive(Clone, Debug, Default)]
+pub struct Env {
+    /// identifier pool for user identifiers (None = neutral names)
+    pub names: Option<Vec<String>>,
+    /// place the type in a module that shadows the prelude names
+    pub shadow: bool,
+}
+
+pub const SHADOWS: &str = "\
+#[allow(dead_code)] pub struct Option; #[allow(dead_code)] pub struct Some; #[allow(dead_code)] pub struct None;\n\
+#[allow(dead_code)] pub struct Result; #[allow(dead_code)] pub struct Ok; #[allow(dead_code)] pub struct Err;\n\
+#[allow(dead_code)] pub struct Ordering; #[allow(dead_code)] pub struct Box; #[allow(dead_code)] pub struct Vec; #[allow(dead_code)] pub struct String;\n\
+#[allow(dead_code)] pub struct Formatter; #[allow(dead_code)] pub struct Less; #[allow(dead_code)] pub struct Equal; #[allow(dead_code)] pub struct Greater;\n\
+#[allow(dead_code)] pub trait Clone {} #[allow(dead_code)] pub trait Copy {} #[allow(dead_code)] pub trait Default {} #[allow(dead_code)] pub trait Debug {}\n\
+#[allow(dead_code)] pub trait PartialEq {} #[allow(dead_code)] pub trait Eq {} #[allow(dead_code)] pub trait PartialOrd {} #[allow(dead_code)] pub trait Ord {}\n\
+#[allow(dead_code)] pub trait Hash {} #[allow(dead_code)] pub trait Hasher {} #[allow(dead_code)] pub trait Into {} #[allow(dead_code)] pub trait From {}\n\
+#[allow(dead_code)] pub trait Deref {} #[allow(dead_code)] pub trait DerefMut {} #[allow(dead_code)] pub trait Sized {} #[allow(dead_code)] pub trait Send {}\n\
+#[allow(dead_code)] pub trait Sync {} #[allow(dead_code)] pub trait Drop {} #[allow(dead_code)] pub trait ToString {} #[allow(dead_code)] pub trait Iterator {}\n\
+#[allow(dead_code)] pub trait Fn {} #[allow(dead_code)] pub trait AsRef {}\n\
+#[allow(dead_code)] pub mod core {} #[allow(dead_code)] pub mod std {} #[allow(dead_code)] pub mod alloc {} #[allow(dead_code)] pub mod fmt {} #[allow(dead_code)] pub mod cmp {}\n";
+
 pub fn prepare(b: &Behaviour, dna: &[u16]) -> Option<Prepared> {
+    prepare_in(b, dna, &Env::default())
+}
+
+pub fn prepare_in(b: &Behaviour, dna: &[u16], env: &Env) -> Option<Prepared> {
     let mut d = Dna::new(dna);
-    let cfg = (b.cfg)(&mut d);
+    let mut cfg = (b.cfg)(&mut d);
+    if let Some(pool) = &env.names {
+        let lower: Vec<String> = pool.iter().filter(|n| n.chars().next().map(|c| c.is_lowercase() || c == '_').unwrap_or(false)).cloned().collect();
+        let upper: Vec<String> = pool.iter().filter(|n| n.chars().next().map(|c| c.is_uppercase()).unwrap_or(false)).cloned().collect();
+        if !lower.is_empty() {
+            cfg.field_names = Some(lower.clone());
+            cfg.lifetime_names = Some(lower.clone());
+        }
+        // type-like positions take both spellings: the statement quantifies over names, not over style
+        let mut tl = upper.clone();
+        tl.extend(lower.iter().cloned());
+        if !tl.is_empty() {
+            // the statement quantifies over field, variant, lifetime, const- and type-parameter names (not the type's own name)
+            cfg.variant_names = Some(tl.clone());
+            cfg.typaram_names = Some(tl.clone());
+            // a const parameter named like a type or trait that is in scope (Clone, Eq, ..) is ambiguous to the language
+            // itself in `Ty<Clone>`, whoever writes the impl; only names that are not types at the derive site are used
+            let mut cl = lower.clone();
+            cl.extend(upper.iter().filter(|n| n.len() == 1).cloned());
+            cfg.const_names = Some(cl);
+        }
+        cfg.raw_idents = false;
+    }
+    if env.shadow {
+        cfg.plain_types_only = true;
+    }
     let built = gen::build(&mut d, &cfg);
     let mut spec = built.spec;
     if !(b.adjust)(&mut spec, &mut d) {
@@ -72,16 +123,30 @@ pub fn prepare(b: &Behaviour, dna: &[u16]) -> Option<Prepared> {
     let rendered = (b.render)(&spec)?;
     // the oracle and observer live in a child module with all lints off, so that warnings can only
     // come from the type definition and what educe generates for it
-    let body = format!(
-        "{}{}{}{}\npub mod obs {{\n#![allow(warnings)]\nuse super::*;\n{}{}\n{}}}\npub fn run(o: &mut Out) {{ obs::run(o) }}\n",
-        std_header(),
-        spec.render_def(),
-        spec.render_support_impls(),
-        spec.extra_items.join("\n"),
-        spec.render_vals_fn(),
-        spec.render_variant_of(),
-        rendered.observer
-    );
+    let body = if env.shadow {
+        format!(
+            "use super::prelude::*;\npub mod hostile {{\nuse educe::Educe;\nuse crate::prelude::*;\n{}\n{}{}{}\npub mod obs {{\n#![allow(warnings)]\nuse crate::prelude::*;\nuse super::{};\n{}{}\n{}}}\n}}\npub fn run(o: &mut Out) {{ hostile::obs::run(o) }}\n",
+            shadows_for(&spec),
+            spec.render_def(),
+            spec.render_support_impls(),
+            spec.extra_items.join("\n"),
+            spec.name,
+            spec.render_vals_fn(),
+            spec.render_variant_of(),
+            rendered.observer
+        )
+    } else {
+        format!(
+            "{}{}{}{}\npub mod obs {{\n#![allow(warnings)]\nuse super::*;\n{}{}\n{}}}\npub fn run(o: &mut Out) {{ obs::run(o) }}\n",
+            std_header(),
+            spec.render_def(),
+            spec.render_support_impls(),
+            spec.extra_items.join("\n"),
+            spec.render_vals_fn(),
+            spec.render_variant_of(),
+            rendered.observer
+        )
+    };
     Some(Prepared { spec, unit: Unit { body, has_run: true }, rendered, gen_classes: built.classes })
 }
 
@@ -222,4 +287,27 @@ pub fn touch_all(v: &VariantSpec) -> String {
         parts.push(format!("&b{i}"));
     }
     format!("let _ = ({},); ", parts.join(", "))
+}
+
+/// the shadowing items, minus those whose name the user's own type-level identifiers already take
+pub fn shadows_for(s: &TypeSpec) -> String {
+    let mut taken: Vec<String> = vec![s.name.clone()];
+    taken.extend(s.gens.types.iter().map(|t| t.name.clone()));
+    taken.extend(s.gens.consts.iter().map(|t| t.name.clone()));
+    let mut out = String::new();
+    for item in SHADOWS.split("#[allow(dead_code)]") {
+        let item = item.trim();
+        if item.is_empty() {
+            continue;
+        }
+        // `pub struct Name;` / `pub trait Name {}` / `pub mod name {}`
+        let name = item.split_whitespace().nth(2).unwrap_or("").trim_end_matches(';').to_string();
+        if taken.contains(&name) {
+            continue;
+        }
+        out.push_str("#[allow(dead_code)] ");
+        out.push_str(item);
+        out.push('\n');
+    }
+    out
 }
